@@ -906,3 +906,8 @@ def _obj_setitem(I, obj, idx, v):
 
 register_hook('getitem', _obj_getitem)
 register_hook('setitem', _obj_setitem)
+
+
+@model('collections.OrderedDict')
+def _ordereddict(I, args, kw):
+    return _dict(I, args, kw)
